@@ -1,4 +1,5 @@
 import OhkamiModel.M.SessionProofs
+import OhkamiModel.M.SessionOne
 /-! # C05 — property theorems about the session-loop model -/
 namespace C05
 open Ohkami Ohkami.Session
@@ -15,5 +16,20 @@ theorem no_residue (app : App) (fuel : Nat) (conn : Conn) :
 /-- an accepted request's first read starts with a method letter (the fact `clear` relies on) -/
 theorem accepted_starts_with_letter (first more : Bytes) (p : Http.Parsed) (h : Http.parse first more = .ok p) : first.headD 0 ≠ 0 :=
   parse_ok_head first more p h
+
+/-- **The k-th request receives the response it would receive alone, in order, and `Connection: close` ends the session.**
+If every chunk holds exactly one complete request (`Exact`: parsed on its own it is accepted or refused; an accepted one ends exactly
+where the chunk ends — its head within the first 1 KiB read, the rest of its body after it; a refused one fits the buffer), then the
+responses written on the connection are `expected`: request by request what `answer` gives — the response of the same request on a fresh
+connection (`alone`) — and nothing after the response to a request that asked `Connection: close`.  For every application (which may even
+inspect the reused request object: it finds nothing), any number of requests, any bytes including NUL, any sizes. -/
+theorem one_per_chunk (app : App) (cs : List Bytes) (hex : ∀ c ∈ cs, Exact c) (fuel : Nat) (hf : cs.length < fuel) (eof : Bool) :
+    (run app fuel ⟨none, 0⟩ ⟨cs, eof⟩).1 = expected app cs :=
+  one_per_chunk' app cs hex fuel hf eof
+
+/-- what a request gets alone on a fresh connection is its `answer` -/
+theorem fresh_connection (app : App) (c : Bytes) (hex : Exact c) :
+    (run app 2 ⟨none, 0⟩ ⟨[c], true⟩).1 = (match answer app c with | some (out, _) => [out] | none => []) :=
+  alone app c hex
 
 end C05
